@@ -3,6 +3,7 @@ package main
 // Calls: conversions, builtins, library models, contracts, inlining, spec functions.
 
 import (
+	"go/constant"
 	"fmt"
 	"go/ast"
 	"go/token"
@@ -171,6 +172,10 @@ func (x *Exec) call0(st *State, e *ast.CallExpr) []Val {
 		if ucon := x.eng.prog.Contracts[key]; ucon != nil {
 			if err := x.eng.prog.Bind(ucon); err != nil {
 				panic(err)
+			}
+			if ucon.Modeless != "" {
+				x.assumed["spec predicate "+key+" is declared to mean the same over machine and mathematical integers: "+ucon.Modeless] = true
+				return []Val{x.specApp(st, fn, e)}
 			}
 			if !ucon.Uninterp && !ucon.Pure && (x.inGhost > 0 || (x.noOblig == 0 && !x.specMode)) {
 				// a lemma (ghost function with a contract) called from ghost code or from another
@@ -638,9 +643,22 @@ func (x *Exec) callContract(st *State, con *Contract, recv *Val, args []Val, e *
 			x.safety(st, "nil", "receiver of "+con.Key+" is non-nil", c.Neq(recv.T, c.Int(0)))
 		}
 	}
-	if con.Ints != x.mode && con.Ints != "both" && !x.specMode {
-		if why := x.eng.prog.modeDependent(con); why != "" {
-			x.fail("call from %s (%s mode) to %s (%s mode): the callee's contract is not mode-independent (%s)", x.key, x.mode, con.Key, con.Ints, why)
+	// cross-mode call: a clause that means the same over machine and mathematical integers is used
+	// as it is; a mode-dependent `ensures` is not used (less is assumed: sound); a mode-dependent
+	// `requires` cannot be evaluated here, so the call site must be unreachable (obligation `false`);
+	// a mode-dependent `modifies` designator cannot be located: the call is rejected.
+	crossMode := con.Ints != x.mode && con.Ints != "both" && !x.specMode
+	skip := map[*Clause]bool{}
+	if crossMode {
+		for _, cl := range con.Modifies {
+			if why := x.eng.prog.clauseModeDependent(cl); why != "" {
+				x.fail("call from %s (%s mode) to %s (%s mode): modifies clause is not mode-independent (%s)", x.key, x.mode, con.Key, con.Ints, why)
+			}
+		}
+		for _, cl := range append(append([]*Clause{}, con.Requires...), con.Ensures...) {
+			if why := x.eng.prog.clauseModeDependent(cl); why != "" {
+				skip[cl] = true
+			}
 		}
 	}
 	x.bindParams(st, sig, recv, args)
@@ -656,6 +674,14 @@ func (x *Exec) callContract(st *State, con *Contract, recv *Val, args []Val, e *
 	}
 	// preconditions
 	for _, rq := range con.Requires {
+		if skip[rq] {
+			if x.noOblig == 0 {
+				name := fmt.Sprintf("%s/call.%s#%d.%s.crossmode", x.key, shortKey(con.Key), ord, rq.Name)
+				x.oblige(st, name, "call-requires", "call site unreachable (precondition `"+rq.Text+"` of a "+con.Ints+"-mode contract cannot be stated in "+x.mode+" mode)", c.False())
+				x.assume(st, c.False())
+			}
+			continue
+		}
 		for _, p := range x.clauseParts(st, rq, nil) {
 			name := fmt.Sprintf("%s/call.%s#%d.%s%s", x.key, shortKey(con.Key), ord, rq.Name, p.suffix)
 			x.oblige(st, name, "call-requires", rq.Text, p.t)
@@ -675,6 +701,19 @@ func (x *Exec) callContract(st *State, con *Contract, recv *Val, args []Val, e *
 	} else {
 		for _, mc := range con.Modifies {
 			x.havocModifies(st, pre, mc)
+		}
+	}
+	// reliable_io of the function under verification covers the functions it calls: no
+	// environmental I/O failure happens during the call (the sticky failure flag is unchanged)
+	if rc := x.rootOrCon(); rc != nil && rc.ReliableIO {
+		if old, ok := pre.heap["ghost.iofail"]; ok {
+			if st.heap["ghost.iofail"] != old {
+				st.heap["ghost.iofail"] = old
+				x.assumed["reliable_io: no environmental I/O failure happens inside the functions called by "+rc.Key] = true
+			}
+		} else if _, ok := st.heap["ghost.iofail"]; ok {
+			delete(st.heap, "ghost.iofail")
+			x.assumed["reliable_io: no environmental I/O failure happens inside the functions called by "+rc.Key] = true
 		}
 	}
 	// the callee may allocate: allocation grows monotonically
@@ -723,6 +762,10 @@ func (x *Exec) callContract(st *State, con *Contract, recv *Val, args []Val, e *
 	x.old = pre
 	x.placehold = ph
 	for _, en := range con.Ensures {
+		if skip[en] {
+			x.abstract["cross-mode call to "+con.Key+": mode-dependent postcondition "+en.Name+" not used"] = true
+			continue
+		}
 		t := x.evalClause(st, en, nil)
 		x.assume(st, t)
 	}
@@ -758,6 +801,7 @@ type modLoc struct {
 	ref     *Term // field/cell: index; elements: storage ref
 	whole   bool  // the whole component (globals)
 	isElems bool
+	key     *Term // one entry of a two-level component (map entry): the inner index
 }
 
 func (x *Exec) modLocations(pre *State, e ast.Expr) []modLoc {
@@ -835,6 +879,14 @@ func (x *Exec) modLocations(pre *State, e ast.Expr) []modLoc {
 		return x.leafLocs(globalComp(lv.obj), lv.typ, nil, true)
 	case lvElem:
 		return []modLoc{{comp: memComp(lv.typ), sort: x.memSort(lv.typ), ref: lv.arr, isElems: true}}
+	case lvMap:
+		// one entry of a map with scalar values: domain bit and value at (map, key)
+		if !isObjType(lv.typ) && !isSliceT(lv.typ) {
+			ks := lv.key.T.sort
+			vs := x.scalarSort(lv.typ)
+			return []modLoc{{comp: "MD." + lv.structKey, sort: SArr(SInt, SArr(ks, SBool)), ref: lv.mapRef, key: lv.key.T},
+				{comp: "MV." + lv.structKey, sort: SArr(SInt, SArr(ks, vs)), ref: lv.mapRef, key: lv.key.T}}
+		}
 	}
 	x.fail("unsupported modifies designator %s", exprString(e))
 	return nil
@@ -910,6 +962,12 @@ func (x *Exec) havocLoc(st *State, loc modLoc) {
 		return
 	}
 	_, es := loc.sort.ArrayParts()
+	if loc.key != nil {
+		_, vs := es.ArrayParts()
+		inner := c.Select(cur, loc.ref)
+		x.heapSet(st, loc.comp, c.Store(cur, loc.ref, c.Store(inner, loc.key, c.Fresh("hv_"+loc.comp, vs))))
+		return
+	}
 	x.heapSet(st, loc.comp, c.Store(cur, loc.ref, c.Fresh("hv_"+loc.comp, es)))
 }
 
@@ -1204,6 +1262,18 @@ func (x *Exec) scanCallMods(ms *modSet, e *ast.CallExpr) {
 			return
 		}
 		ms.add("ghost.brk", SInt)
+		// result objects are filled by the callee (their fields get post-state values at the call)
+		if rsig, ok := con.Fn.Type().(*types.Signature); ok {
+			for i := 0; i < rsig.Results().Len(); i++ {
+				r := rsig.Results().At(i)
+				rt := r.Type()
+				if isObjType(rt) {
+					x.markObjComps(ms, rt)
+				} else if p, ok := rt.Underlying().(*types.Pointer); ok && con.freshResult(i, r) && isObjType(p.Elem()) {
+					x.markObjComps(ms, p.Elem())
+				}
+			}
+		}
 		for _, mc := range con.Modifies {
 			if x.globalOnlyClause(mc) {
 				// precise: the designator denotes the same locations at the loop head
@@ -1330,6 +1400,33 @@ func (x *Exec) scanModClause(ms *modSet, mc *Clause) {
 // mean the same over machine integers and over mathematical integers: no arithmetic, bit operation,
 // shift, negation or integer conversion anywhere in the clauses or in the spec functions they call.
 func (p *Program) modeDependent(con *Contract) string {
+	var all []*Clause
+	all = append(all, con.Requires...)
+	all = append(all, con.Ensures...)
+	all = append(all, con.Modifies...)
+	for _, cl := range all {
+		if w := p.clauseModeDependent(cl); w != "" {
+			return cl.Name + ": " + w
+		}
+	}
+	return ""
+}
+
+func (p *Program) clauseModeDependent(cl *Clause) string {
+	p.modeDepMu.Lock()
+	defer p.modeDepMu.Unlock()
+	if p.modeDepCache == nil {
+		p.modeDepCache = map[*Clause]string{}
+	}
+	if w, ok := p.modeDepCache[cl]; ok {
+		return w
+	}
+	w := p.clauseModeDependent1(cl)
+	p.modeDepCache[cl] = w
+	return w
+}
+
+func (p *Program) clauseModeDependent1(cl *Clause) string {
 	seen := map[string]bool{}
 	var checkNode func(n ast.Node, info *types.Info) string
 	checkNode = func(n ast.Node, info *types.Info) string {
@@ -1344,6 +1441,12 @@ func (p *Program) modeDependent(con *Contract) string {
 				case token.ADD, token.SUB, token.MUL, token.QUO, token.REM, token.AND, token.OR, token.XOR, token.SHL, token.SHR, token.AND_NOT:
 					if tv, ok := info.Types[e]; ok && tv.Value != nil {
 						return false // constant expression
+					}
+					if e.Op == token.QUO || e.Op == token.REM {
+						// division/remainder by a positive constant cannot overflow: same meaning in both modes
+						if tv, ok := info.Types[e.Y]; ok && tv.Value != nil && constant.Sign(tv.Value) > 0 {
+							return true
+						}
 					}
 					if tv, ok := info.Types[e]; ok && isString(tv.Type) {
 						return true
@@ -1366,7 +1469,7 @@ func (p *Program) modeDependent(con *Contract) string {
 			case *ast.CallExpr:
 				if tv, ok := info.Types[e.Fun]; ok && tv.IsType() {
 					if _, _, isInt := intInfo(tv.Type); isInt {
-						if atv, ok := info.Types[e.Args[0]]; ok && atv.Value == nil {
+						if atv, ok := info.Types[e.Args[0]]; ok && atv.Value == nil && !wideningConv(atv.Type, tv.Type) {
 							why = "integer conversion " + types.ExprString(e)
 						}
 					}
@@ -1389,6 +1492,11 @@ func (p *Program) modeDependent(con *Contract) string {
 					case "forall", "exists", "all", "elems":
 						return true
 					}
+					if sc := p.Contracts[key]; sc != nil {
+						if _, ok := sc.rawDirective("modeless"); ok {
+							return true // declared to mean the same in both integer modes (listed as an assumption)
+						}
+					}
 					if d := p.Decls[key]; d != nil && d.Body != nil {
 						pos := p.Fset.Position(fn.Pos())
 						if isContractFile(pos.Filename) {
@@ -1403,16 +1511,7 @@ func (p *Program) modeDependent(con *Contract) string {
 		})
 		return why
 	}
-	var all []*Clause
-	all = append(all, con.Requires...)
-	all = append(all, con.Ensures...)
-	all = append(all, con.Modifies...)
-	for _, cl := range all {
-		if w := checkNode(cl.Expr, cl.Info); w != "" {
-			return cl.Name + ": " + w
-		}
-	}
-	return ""
+	return checkNode(cl.Expr, cl.Info)
 }
 
 // freshResult: does some ensures clause have the top-level conjunct fresh(<result i>)?
@@ -1452,4 +1551,18 @@ func (x *Exec) evalClauseVal(st *State, cl *Clause) *Term {
 	x.noOblig--
 	x.info, x.curClause = savedInfo, savedClause
 	return x.toIdx(st, v)
+}
+
+// wideningConv: every value of the source integer type is a value of the target type (the
+// conversion is the identity on values in both integer modes).
+func wideningConv(from, to types.Type) bool {
+	fb, fs, ok1 := intInfo(from)
+	tb, ts, ok2 := intInfo(to)
+	if !ok1 || !ok2 {
+		return false
+	}
+	if fs == ts {
+		return tb >= fb
+	}
+	return !fs && ts && tb > fb
 }
